@@ -77,6 +77,37 @@ func compressRaw(in []byte, crc bool, parts []int) (res CompressResult) {
 	return res
 }
 
+// failingWriter accepts `room` bytes and fails from then on (a link that drops during a transfer).
+type failingWriter struct{ room int }
+
+func (f *failingWriter) Write(p []byte) (int, error) {
+	if len(p) <= f.room {
+		f.room -= len(p)
+		return len(p), nil
+	}
+	n := f.room
+	f.room = 0
+	return n, errors.New("lzwork: destination failed (link dropped)")
+}
+
+// CompressToFailingDestination compresses in to a destination that accepts only `room` bytes: a transfer
+// that fails. Nothing is judged here (an error is the expected result); the point is what such a failed
+// transfer leaves behind for the NEXT compression of the process. Panics of the library are returned.
+func CompressToFailingDestination(in []byte, crc bool, room int) (pan *vrt.Violation) {
+	defer func() {
+		if r := recover(); r != nil {
+			v := vrt.PanicViolation(r, debug.Stack())
+			pan = &v
+		}
+	}()
+	vrt.CPUGuard(func() {
+		w := lzhuf.NewWriter(&failingWriter{room: room}, crc)
+		w.Write(in)
+		w.Close()
+	}, SpinCPU, SpinWall)
+	return nil
+}
+
 // ---------------------------------------------------------------------------------------------
 // source readers handed to lzhuf.NewReader
 
